@@ -313,7 +313,7 @@ func (t *Template) parseTemplate(cacheAfterParsing bool) (next Node) {
 
 	for t.peek().typ != itemEOF {
 		switch n := t.textOrAction(); n.Type() {
-		case nodeEnd, nodeElse, nodeContent:
+		case nodeEnd, nodeElse, nodeContent, nodeCatch:
 			t.errorf("unexpected %s", n)
 		default:
 			t.Root.append(n)
@@ -513,6 +513,11 @@ func (t *Template) itemList(terminatedBy ...NodeType) (list *ListNode, next Node
 			if n.Type() == terminatorType {
 				return list, n
 			}
+		}
+		switch n.Type() {
+		case nodeEnd, nodeElse, nodeContent, nodeCatch:
+			// a control action that does not terminate this list does not belong here
+			t.errorf("unexpected %s", n)
 		}
 		list.append(n)
 	}
